@@ -30,7 +30,8 @@ const (
 	GateMap                // simsync.Map operations
 	GateNet                // simnet deliveries
 	GateUser               // explicit harness yields inside callbacks
-	GateAll    = GateTask | GateMutex | GateAtomic | GateMap | GateNet | GateUser
+	GateGo                 // start of goroutines launched by `go` statements in files opted in with "go_gates"
+	GateAll    = GateTask | GateMutex | GateAtomic | GateMap | GateNet | GateUser | GateGo
 )
 
 const stallFlag = 0x80000000
@@ -174,8 +175,9 @@ type Run struct {
 	stallPct  int // percent chance per step (while budget lasts)
 	stallLeft int
 
-	steps  int
-	stalls int
+	steps     int
+	stalls    int
+	stalledNs int64
 	hash   uint64
 	log    []string
 	nlog   int
@@ -368,6 +370,15 @@ func (r *Run) sinceLocked() time.Duration { return time.Since(r.start) }
 
 // Now returns the simulated time elapsed since the start of the run.
 func (r *Run) Now() time.Duration { return time.Since(r.start) }
+
+// StalledFor returns the total virtual time the scheduler has let pass with
+// tasks parked at gates (stall decisions) so far: an upper bound on how much a
+// measured duration may have been inflated by scheduling alone.
+func (r *Run) StalledFor() time.Duration {
+	r.mu.Lock()
+	defer r.mu.Unlock()
+	return time.Duration(r.stalledNs)
+}
 
 // Step returns the global scheduling step number (a total order on events).
 func (r *Run) Step() int {
@@ -600,6 +611,9 @@ func (r *Run) configure() {
 		if g&4 != 0 {
 			r.gates |= GateMap
 		}
+		if g >= 12 {
+			r.gates |= GateGo
+		}
 	}
 	r.strategy = knob(3)
 	r.stickyP = []int{50, 75, 90, 97}[knob(4)]
@@ -658,6 +672,7 @@ func (r *Run) loop() {
 		i, d := r.pick()
 		if i < 0 {
 			r.stalls++
+			r.stalledNs += int64(d)
 			r.steps++
 			r.hashStr("stall")
 			r.hashInt(uint64(d))
